@@ -11,15 +11,16 @@ def native_outcome(text, k, present):
     return [('ok', None) if 'ok' in r else ('err', r['err']) if 'err' in r else ('panic', r.get('panic')) for r in ans['runs']]
 
 def replay(text, k, present):
-    """native run vs the classifier evaluated concretely"""
+    """native run vs the classifier evaluated concretely (extended and plain entry points)"""
     I = TL.interp(); ctx = PathCtx(); I.ctx = ctx
     exp = TL.classify(I, ctx, [ord(c) for c in text], present, k)
+    expp = TL.classify(I, PathCtx(), [ord(c) for c in text], [], k, extended=False)
     nat = native_outcome(text, k, present)
     diffs = []
-    for entry, (o, msg) in zip(('model_check_extended_formula', 'model_check_multiple_extended_formulae_dirty'), nat[:2]):
-        if o == 'panic' or o == 'fatal': diffs.append(f'{entry}({text!r}, k={k}, context labels {present}) panics: {msg}')
-        elif o != exp[0]: diffs.append(f'{entry}({text!r}, k={k}, context labels {present}) returns {o}{" (" + str(msg) + ")" if msg else ""} but the input is classified {exp[0]}{" (" + exp[1] + ")" if exp[0] == "err" else ""}')
-    if nat[2][0] in ('panic', 'fatal'): diffs.append(f'model_check_formula({text!r}, k={k}) panics: {nat[2][1]}')
+    for entry, (o, msg), e in zip(('model_check_extended_formula', 'model_check_multiple_extended_formulae_dirty', 'model_check_formula'), nat, (exp, exp, expp)):
+        ctxs = f', context labels {present}' if 'extended' in entry else ''
+        if o == 'panic' or o == 'fatal': diffs.append(f'{entry}({text!r}, k={k}{ctxs}) panics: {msg}')
+        elif o != e[0]: diffs.append(f'{entry}({text!r}, k={k}{ctxs}) returns {o}{" (" + str(msg) + ")" if msg else ""} but the input is classified {e[0]}{" (" + e[1] + ")" if e[0] == "err" else ""}')
     return diffs
 
 def run(chk):
@@ -32,6 +33,8 @@ def run(chk):
     plan = [({'mode': 'chars', 'L': 1, 'k': 1}, 'all strings of 1 symbolic character'), ({'mode': 'chars', 'L': 2, 'k': 1}, 'all strings of 2 symbolic characters')]
     if thorough: plan.append(({'mode': 'chars', 'L': 3, 'k': 1}, 'all strings of 3 symbolic characters'))
     for k in (0, 1, 2, 3): plan.append(({'mode': 'context', 'k': k}, f'extended formulas x subsets of context labels, k={k}'))
+    for k in (1, 2): plan.append(({'mode': 'context', 'k': k, 'entry': 'plain'}, f'the same formulas through the plain entry point model_check_multiple_formulae, k={k}'))
+    plan.append(({'mode': 'template', 'edits': 1, 'k': 1, 'template': 0, 'entry': 'plain'}, f'template {TL.C14_TEMPLATES[0]!r} through the plain entry point with exactly as many spare sets as the nesting depth'))
     for ti in range(len(TL.C14_TEMPLATES) if thorough else 3):
         plan.append(({'mode': 'template', 'edits': 1, 'k': 2, 'template': ti}, f'template {TL.C14_TEMPLATES[ti]!r} with one symbolic character substituted'))
     for params, label in plan:
